@@ -197,6 +197,80 @@ func LoadCorpus(repo string) (*Corpus, error) {
 		}
 		break
 	}
+	// members no shipped example carries (logos with inline data, online payment
+	// instructions, attachments, item identities, substituted lines, telephones,
+	// e-mails, a registration): each group is kept only if the tree under test
+	// still builds and validates the document with it
+	if base := c.byName["examples/es/invoice-es-es"]; base != nil && base.Err == "" && !base.IsEnv {
+		if v, err := ParseJV(base.Src); err == nil && v.Get("supplier") != nil && v.Get("lines") != nil && len(v.Get("lines").A) > 0 {
+			dig := `{"alg":"sha256","val":"559aead08264d5795d3909718cdd05abd49572e84fe55590eef31a88a08fdffd"}`
+			groups := []struct{ at, key, val string }{
+				{"supplier", "logos", `[{"label":"logo","url":"https://example.com/logo.png","mime":"image/png","height":128,"width":128,"digest":` + dig + `},{"label":"inline","data":"QQ==","mime":"image/png","digest":` + dig + `}]`},
+				{"supplier", "telephones", `[{"label":"office","num":"+34 910 000 000"}]`},
+				{"supplier", "emails", `[{"label":"billing","addr":"billing@example.com"}]`},
+				{"supplier", "registration", `{"capital":"3000.00","currency":"EUR","office":"Madrid","book":"1","volume":"2","sheet":"3","section":"4","page":"5","entry":"6"}`},
+				{"", "attachments", `[{"key":"sales","name":"terms.pdf","url":"https://example.com/terms.pdf","mime":"application/pdf","digest":` + dig + `},{"name":"a.txt","data":"QQ==","mime":"text/csv","description":"inline"}]`},
+				{"payment", "instructions", `{"key":"online","detail":"pay on the web","online":[{"key":"portal","label":"Pay now","url":"https://pay.example.com/inv/1"}]}`},
+				{"lines/0/item", "identities", `[{"label":"SKU","code":"A-100"},{"key":"gtin","code":"0012345678905"}]`},
+				{"lines/0", "substituted", `[{"quantity":"1","item":{"name":"what was ordered","price":"90.00"}}]`},
+			}
+			get := func(root *JV, at string) *JV {
+				cur := root
+				if at == "" {
+					return cur
+				}
+				for _, p := range strings.Split(at, "/") {
+					if cur == nil {
+						return nil
+					}
+					if cur.K == 'a' {
+						if p != "0" || len(cur.A) == 0 {
+							return nil
+						}
+						cur = cur.A[0]
+						continue
+					}
+					nx := cur.Get(p)
+					if nx == nil && cur.K == 'o' {
+						nx = &JV{K: 'o'}
+						cur.Set(p, nx)
+					}
+					cur = nx
+				}
+				return cur
+			}
+			kept := 0
+			for _, g := range groups {
+				trial := v.Clone()
+				obj := get(trial, g.at)
+				val, err := ParseJV([]byte(g.val))
+				if obj == nil || obj.K != 'o' || err != nil || obj.Get(g.key) != nil {
+					continue
+				}
+				obj.Set(g.key, val)
+				t := &Doc{Name: "trial", Src: trial.Encode(nil)}
+				buildDoc(t, len(c.Docs))
+				if t.Err == "" && bytes.Contains(t.Env, []byte(`"`+g.key+`"`)) {
+					v = trial
+					kept++
+				}
+			}
+			if kept > 0 {
+				d := &Doc{Name: "synthetic/es-invoice-rare-members", Src: v.Encode(nil)}
+				buildDoc(d, len(c.Docs))
+				if f := os.Getenv("VERIF_CORPUS_DUMP"); f != "" {
+					// debugging aid: what the synthetic document came out as
+					_ = os.WriteFile(f, []byte(fmt.Sprintf("kept=%d err=%q\n%s\n", kept, d.Err, d.Env)), 0o644)
+				}
+				c.Docs = append(c.Docs, d)
+				c.byName[d.Name] = d
+				if d.Err == "" {
+					c.Valid = append(c.Valid, d)
+					c.Invoices = append(c.Invoices, d)
+				}
+			}
+		}
+	}
 	// Portuguese documents stored before the move to addons: rate keys such as
 	// "exempt+outlay" are migrated when the document is read. No shipped example
 	// uses them on its lines.
